@@ -1528,6 +1528,18 @@ def m_result_ok(I, st, fr, t, args, name):
     return NotImplemented
 
 
+def m_with_extension(I, st, fr, t, args, name):
+    """Path::with_extension(p, ext) = { let mut b = p.to_path_buf(); b.set_extension(ext); b } - same effect entry and the same
+    havoc-named value as the two-step form, so that rules see one shape"""
+    a = args[0]
+    old = I.read_cell_path(st, a.cell, a.proj) if isinstance(a, Ref) else a
+    c = st.alloc(clone_value(old))
+    I.extern_value(st, 'std::path::PathBuf::set_extension', [Ref(c), args[1]], 'bool', line=t['line'], fn=fr.body.path)
+    k = st.fresh('havoc')
+    base = I.describe(st, old).split("'")[0]
+    return Sym(f"{base}'{k.split('#')[1]}", 'std::path::PathBuf', ('havoc', I.xof(st, old), 'std::path::PathBuf::set_extension'))
+
+
 def m_option_take(I, st, fr, t, args, name):
     a = args[0]
     if isinstance(a, Ref):
@@ -1604,6 +1616,7 @@ DEFAULT_MODELS = {
     r'^std::option::Option::<T>::(copied|cloned)$|^std::option::Option::<&(mut )?T>::(copied|cloned)$|^std::result::Result::<&(mut )?T, E>::(copied|cloned)$': m_opt_copied,
     r'as std::clone::Clone>::clone$': m_clone,
     r'^std::path::Path::to_path_buf$': m_clone,        # an owned copy of the same path value
+    r'^std::path::Path::with_extension$': m_with_extension,
     r'as std::convert::(From|Into)<.*>>::(from|into)$': m_passthrough,
     r'^std::option::Option::<T>::is_some$|^std::result::Result::<T, E>::is_ok$': None,  # filled below
     r'as std::ops::Try>::branch$': m_try_branch,
